@@ -220,15 +220,39 @@ def part_sib(ctx):
                         "the convention of the writer bboxesFromGeoPolygon (sibling cross-check). ")
 
 
-def part_bitprov(which):
+def part_bitprov(which, pid=None):
     def run(ctx):
         from . import rules_bitprov
         m = module("release", "ssa")
         n0 = len([o for o in ctx.obligations if o["rule"] == "R-BITPROV"])
-        getattr(rules_bitprov, "check_" + which)(ctx, m, "release", ctx.tier)
+        if pid:
+            getattr(rules_bitprov, "check_" + which)(ctx, m, "release", ctx.tier, pid)
+        else:
+            getattr(rules_bitprov, "check_" + which)(ctx, m, "release", ctx.tier)
         ctx.explanation += rules_bitprov.TEXT[which] + " "
         ctx.floor("R-BITPROV", "bit-exact instances (%s)" % which, len([o for o in ctx.obligations if o["rule"] == "R-BITPROV"]) - n0 + len([b for b in ctx.brokens if b["rule"] == "R-BITPROV"]), rules_bitprov.FLOOR[which])
     return run
+
+
+def part_hashmod(fns, floor):
+    def run(ctx):
+        from . import rules_sib
+        n = rules_sib.check_hashmod(ctx, module("release", "ssa"), "release", fns)
+        ctx.explanation += ("R-SIB hashmod: every open-addressing probe `loc = key % M; ... loc = (loc + 1) % M'` wraps around with the modulus it started "
+                            "with (M' is the same SSA value as M); instances are found from the IR (rem of phi+1 whose phi web is fed by a rem and subscripts memory). ")
+        ctx.floor("R-SIB", "hash probe loops", n, floor)
+    return run
+
+
+def part_argmin(ctx):
+    from . import rules_argmin
+    try:
+        n = rules_argmin.check(ctx, module("release", "ssa"), "release")
+    except AnalysisBroken as e:
+        ctx.broken("R-ARGMIN", str(e)); n = 0
+    ctx.explanation += ("R-ARGMIN: the face-selection loop of _geoToClosestFace compares every centre of faceCenterPoint (exits: exhaustion at the table extent, or a "
+                        "threshold provably below 2-2cos(theta_min/2) computed from the table), replaces the best exactly under d < best, and starts from >= 4.0. ")
+    ctx.floor("R-ARGMIN", "clauses", n + len([b for b in ctx.brokens if b["rule"] == "R-ARGMIN"]), 3)
 
 
 def part_fmt(ctx):
@@ -250,17 +274,17 @@ def part_ret(ctx):
 
 PARTS = {
     "C01": [part_guards("C01"), part_bitprov("validity"), part_tables(["T7"], {"T7": ["isBaseCellPentagonArr"]}), part_cform("C01"), part_wit("C01")],
-    "C02": [part_guards("C02"), part_tables(["T6", "T16", "T19"]), part_wit("C02")],
-    "C03": [part_guards("C03"), part_tables(["T7", "T4", "T5", "T9", "T19"], {"T7": ["pentagonCount", "res0CellCount", "getRes0Cells", "getPentagons", "baseCellNeighbors:rows", "baseCellNeighbor60CCWRots:rows"]}), part_cform("C03"), part_wit("C03")],
-    "C04": [part_guards("C04"), part_cform("C04"), part_tables(["T7"], {"T7": ["isBaseCellPentagonArr"]}), part_wit("C04")],
-    "C05": [part_guards("C05"), part_tables(["T1", "T2", "T3", "T10", "T11", "T7", "T19"], {"T7": ["baseCellNeighbors", "baseCellNeighbor60CCWRots"]}), part_cform("C05"), part_wit("C05")],
-    "C06": [part_guards("C06"), part_bw("C06")],
+    "C02": [part_guards("C02"), part_argmin, part_bitprov("indexops", "C02"), part_tables(["T6", "T16", "T19"]), part_wit("C02")],
+    "C03": [part_guards("C03"), part_argmin, part_bitprov("validity"), part_bitprov("indexops", "C03"), part_tables(["T7", "T4", "T5", "T9", "T19"], {"T7": ["isBaseCellPentagonArr", "pentagonCount", "res0CellCount", "getRes0Cells", "getPentagons", "baseCellNeighbors:rows", "baseCellNeighbor60CCWRots:rows"]}), part_cform("C03"), part_wit("C03")],
+    "C04": [part_guards("C04"), part_bitprov("indexops", "C04"), part_cform("C04"), part_tables(["T7"], {"T7": ["isBaseCellPentagonArr"]}), part_wit("C04")],
+    "C05": [part_guards("C05"), part_bitprov("indexops", "C05"), part_tables(["T1", "T2", "T3", "T10", "T11", "T7", "T19"], {"T7": ["baseCellNeighbors", "baseCellNeighbor60CCWRots"]}), part_cform("C05"), part_hashmod(["_gridDiskDistancesInternal"], 1), part_wit("C05")],
+    "C06": [part_guards("C06"), part_bitprov("indexops", "C06"), part_bw("C06"), part_hashmod(["compactCells"], 2)],
     "C08": [part_tables(["T5", "T9", "T13"]), part_cform("C08"), part_wit("C08")],
-    "C09": [part_guards("C09"), part_tables(["T1", "T2", "T3", "T10", "T14"]), part_ovf, part_wit("C09")],
-    "C10": [part_guards("C10"), part_tables(["T8", "T12"]), part_cform("C10"), part_wit("C10")],
+    "C09": [part_guards("C09"), part_bitprov("indexops", "C09"), part_tables(["T1", "T2", "T3", "T10", "T14"]), part_ovf, part_wit("C09")],
+    "C10": [part_guards("C10"), part_bitprov("indexops", "C10"), part_tables(["T8", "T12"]), part_cform("C10"), part_wit("C10")],
     "C11": [part_guards("C11"), part_tables(["T8", "T12", "T7"], {"T7": ["pentagonDirectionFaces"]}), part_wit("C11")],
-    "C12": [part_guards("C12"), part_ret, part_errdisc, part_ovf, part_idx, part_bw(None), part_cform("C12"), part_wit("C12")],
-    "C13": [part_guards("C13"), part_cform("C13"), part_wit("C13")], "C14": [part_guards("C14"), part_bw("C14"), part_cform("C14")], "C15": [part_guards("C15"), part_bw("C15"), part_sib, part_tables(["T17", "T18"]), part_wit("C15")],
+    "C12": [part_guards("C12"), part_ret, part_errdisc, part_ovf, part_idx, part_bw(None), part_hashmod(None, 5), part_cform("C12"), part_wit("C12")],
+    "C13": [part_guards("C13"), part_bitprov("indexops", "C13"), part_cform("C13"), part_wit("C13")], "C14": [part_guards("C14"), part_bw("C14"), part_cform("C14")], "C15": [part_guards("C15"), part_bw("C15"), part_sib, part_tables(["T17", "T18"]), part_wit("C15")],
     "C19": [part_tables(["T5", "T9"]), part_bw("C19"), part_cform("C19"), part_wit("C19")],
     "C20": [part_guards("C20"), part_fmt, part_wit("C20")],
 }
